@@ -82,6 +82,7 @@ func init() {
 			a.c01Gates()
 			a.c01Primitives()
 			a.c01Provenance()
+			a.cipherBuffers("K.cipher-buffers")
 			// what a public key is reported as (fingerprint) and whether a signature verifies under it depend on the
 			// key alone: nothing on those paths writes memory shared between keys or conversations (a cache, say)
 			pure := map[*ssa.Function]bool{}
